@@ -208,6 +208,7 @@ def run(v):
         D.tree_group_family(SEED + 47, 12 if q else 60, budget=10**9) + D.alt_pos_family(SEED + 48, 8 if q else 40, budget=10**9) + \
         D.alt_env_family(SEED + 49, 6 if q else 30, budget=10**9) + D.flagguard_family(SEED + 50, 6 if q else 18) + \
         D.catch_family(SEED + 51, 6 if q else 18) + D.acmd_family(SEED + 52, 9 if q else 45, budget=10**9)
+    D.api_variants(fams, SEED + 53)
     sess = sessions(SEED, fams, 100 if q else 150)
     spath = os.path.join(WORK, f"C04-{v.tier}-sessions.ndjson")
     with open(spath, "w") as w:
